@@ -139,31 +139,31 @@ Cleared(es) == [i \in DOMAIN es |-> [es[i] EXCEPT !.primary = FALSE]]
 
 OptArgs(r, mat, opts) == [r |-> r, mat |-> mat, opts |-> opts]
 
-(* refused before anything is touched *)
-AddOptsRefused(m, r, mat, opts) ==
-  /\ mat \in MatIn /\ r \in ID \cup {NoReq}
+(* refused before anything is touched (the kind of material plays no role) *)
+AddOptsRefused(m, r, opts) ==
+  /\ r \in ID \cup {NoReq}
   /\ Verdict(m, r, opts) \in {"idConflict", "unknownStatus", "primaryNotEnabled"}
   /\ res' = Err("AddOptsRefused", m, r)
-  /\ io' = Call(OptArgs(r, mat, opts), Verdict(m, r, opts))
+  /\ io' = Call(OptArgs(r, "SYMMETRIC", opts), Verdict(m, r, opts))
   /\ UNCHANGED <<mgr, handles, kx, hx>>
 
 (* the id is taken and AsPrimary was not requested: nothing changes *)
-AddOptsCollision(m, r, mat, opts) ==
-  /\ mat \in MatIn /\ r \in ID \cup {NoReq}
+AddOptsCollision(m, r, opts) ==
+  /\ r \in ID \cup {NoReq}
   /\ Verdict(m, r, opts) = "collision" /\ ~Folded(r, opts).primary
   /\ res' = Err("AddOptsCollision", m, Folded(r, opts).fixed)
-  /\ io' = Call(OptArgs(r, mat, opts), "collision")
+  /\ io' = Call(OptArgs(r, "SYMMETRIC", opts), "collision")
   /\ UNCHANGED <<mgr, handles, kx, hx>>
 
 (* THE DEVIATION: the id is taken and AsPrimary was requested (status ENABLED): every existing *)
 (* entry has lost its primary flag by the time the collision is noticed; the error is returned *)
 (* and the manager is left without a primary.                                                  *)
-AddOptsCollisionClearsPrimary(m, r, mat, opts) ==
-  /\ mat \in MatIn /\ r \in ID \cup {NoReq}
+AddOptsCollisionClearsPrimary(m, r, opts) ==
+  /\ r \in ID \cup {NoReq}
   /\ Verdict(m, r, opts) = "collision" /\ Folded(r, opts).primary
   /\ mgr' = [mgr EXCEPT ![m].entries = Cleared(@)]
   /\ res' = Err("AddOptsCollisionClearsPrimary", m, Folded(r, opts).fixed)
-  /\ io' = Call(OptArgs(r, mat, opts), "collision")
+  /\ io' = Call(OptArgs(r, "SYMMETRIC", opts), "collision")
   /\ UNCHANGED <<handles, kx, hx>>
 
 (* accepted: the id is the fixed id, else a random draw that is still available (draw) *)
@@ -328,14 +328,14 @@ ManagerNext(OptLists, m) ==
   \/ Handle(m)
   \/ \E h \in DOMAIN handles : FromHandle(m, h)
   \/ \E a \in Ann : SetAnnotations(m, a)
-  \/ \E r \in ID \cup {NoReq}, mat \in MatIn, opts \in OptLists :
-        \/ AddOptsRefused(m, r, mat, opts)
-        \/ AddOptsCollision(m, r, mat, opts)
-        \/ \E d \in ID : AddOptsOk(m, r, mat, opts, d)
+  \/ \E r \in ID \cup {NoReq}, opts \in OptLists :
+        \/ AddOptsRefused(m, r, opts)
+        \/ AddOptsCollision(m, r, opts)
+        \/ \E mat \in MatIn, d \in ID : AddOptsOk(m, r, mat, opts, d)
   \/ \E opts \in OptLists : Len(opts) <= 1 /\ AddOptsNilKey(m, opts)
 
 Deviation(OptLists, m) ==
-  \E r \in ID \cup {NoReq}, mat \in MatIn, opts \in OptLists : AddOptsCollisionClearsPrimary(m, r, mat, opts)
+  \E r \in ID \cup {NoReq}, opts \in OptLists : AddOptsCollisionClearsPrimary(m, r, opts)
 
 HandleNext(AnnLists) ==
   \/ \E h \in DOMAIN handles :
